@@ -264,11 +264,6 @@ class Driver(object):
         m = case['meta']
         if m['kind'] == 'call' and any(n in DOTS for n in m.get('names', [])):
             return 'dot-segment-name'
-        if m['kind'] == 'resp' and m.get('iterates') and \
-                m['response'] in ('204empty', '200text'):
-            site = ('basic.get' if m['op'].startswith('basic.get') else
-                    'top' if m['op'].startswith('api.top') else 'list')
-            return 'non-json-2xx@' + site
         return None
 
     def stats(self, cases):
